@@ -848,7 +848,7 @@ class Ctx:
             if r is not None:
                 return r
         # linear closure of the order facts (Fourier-Motzkin over the rationals, monomials as variables)
-        if _depth == 0:
+        if _depth == 0 and not getattr(self, '_no_fm', False):
             r = self._fm_decide(op, d)
             if r is not None:
                 return r
@@ -1102,8 +1102,13 @@ class Ctx:
             return True
         if a2.is_nan() or b2.is_nan():
             return False
-        if self.decide(cmp_term('Eq', a2, b2)) is True:
-            return True
+        # term identity is asked thousands of times by the rules; the (costly) linear closure is reserved for order queries
+        self._no_fm = True
+        try:
+            if self.decide(cmp_term('Eq', a2, b2)) is True:
+                return True
+        finally:
+            self._no_fm = False
         return _mask_equal(a2, b2)
 
     def assume(self, b, value=True):
